@@ -164,7 +164,8 @@ def c12(res, tier, seed):
     qs.append(Query("segment: parallel => code no", pcl + [T.fcmp("feq", den, 0.0), code_l], meta=dict(fn="Line2::intersects")))
     qs.append(Query("segment: swap symmetry (reals)", pcl + [xor(code_l, code_l_sw)], meta=dict(fn="Line2::intersects")))
     # bit-precise swap symmetry: the float expressions are exact negations of each other
-    qs.append(Query("segment: swap symmetry (IEEE-754 doubles, finite inputs)", pcl + [xor(code_l, code_l_sw)] + [T.band(T.fcmp("fle", -1e6, v), T.fcmp("fle", v, 1e6)) for v in (asx, asy, aex, aey, bsx, bsy, bex, bey)],
+    if tier == "thorough":
+      qs.append(Query("segment: swap symmetry (IEEE-754 doubles, finite inputs)", pcl + [xor(code_l, code_l_sw)] + [T.band(T.fcmp("fle", -1e6, v), T.fcmp("fle", v, 1e6)) for v in (asx, asy, aex, aey, bsx, bsy, bex, bey)],
                     mode="F", timeout=60 if tier == "quick" else 900, meta=dict(fn="Line2::intersects")))
     f_line_mul = [f for f in ex.fns if f.name.startswith("line2_ops::") and f.name.endswith("::mul") and "&line2::Line2" in f.args[0][1] and "&transform::Transform2" in f.args[1][1]]
     for refl in (False, True):
@@ -190,7 +191,10 @@ def c12(res, tier, seed):
         for i, e in enumerate(raw_items):
             nxt = raw_items[(i + 1) % n]
             gap = max(gap, abs(e.fields[1].fields[0] - nxt.fields[0].fields[0]), abs(e.fields[1].fields[1] - nxt.fields[0].fields[1]))
-            items.append(Agg("struct:Line2", [e.fields[0], nxt.fields[0]]))
+            # vertices rounded to the 2^-40 grid (1e-12): small rationals keep nlsat fast; the lemma is
+            # a statement about a convex polygon within 1e-12 of the real one
+            rnd = lambda p: S.point(round(p.fields[0] * 2 ** 40) / 2 ** 40, round(p.fields[1] * 2 ** 40) / 2 ** 40)
+            items.append(Agg("struct:Line2", [rnd(e.fields[0]), rnd(nxt.fields[0])]))
         qs.append(Query("polygon(%d): consecutive edges of LineShape::polygon meet within 1e-12 (max gap %.3g)" % (n, gap), [gap > 1e-12], meta=dict(fn="LineShape::from_radial (native data)"), nontrivial=False))
         # inside(P): left of every edge (vertices are ordered clockwise: start=(0,1) -> (1,0))
         def side(e, qx, qy):
@@ -1457,8 +1461,9 @@ def c02(res, tier, seed):
     ex = E.load()
     f_fr = E.find_fn(ex, r"^line_shape::.*::from_radial$")
     f_la = E.find_fn(ex, r"^line_shape::<impl at [^>]*>::area$")
-    for n in ((3, 4) if tier == "quick" else (3, 4, 5, 6)):
-        radii = [F("r%d" % i) for i in range(n)]
+    cases = [(3, False), (4, True), (5, True), (6, True)] if tier == "quick" else [(3, False), (4, False), (4, True), (5, True), (6, True), (8, True), (5, False)]
+    for n, regular in cases:
+        radii = [F("r")] * n if regular else [F("r%d" % i) for i in range(n)]
         rv, pc, _ = E.run(ex, f_fr, [Agg("str", ["P"]), Agg("vec", radii)])
         okv = [f_[0] for c_, vn, f_ in rv.alts if vn == "Ok"]
         if not okv:
@@ -1477,7 +1482,7 @@ def c02(res, tier, seed):
         for r in radii:
             box += [T.fcmp("fle", 0.5, r), T.fcmp("fle", r, 2.0)]
         d = T.fbin("fsub", ar, shoelace)
-        qs.append(Query("polygon(%d): LineShape::area of from_radial(r_0..r_%d) equals the polygon's shoelace area within 1e-9 (radii in [1/2,2])" % (n, n - 1),
+        qs.append(Query("polygon(%d, %s): LineShape::area of from_radial equals the polygon's shoelace area within 1e-9 (radii in [1/2,2])" % (n, "one symbolic radius" if regular else "independent symbolic radii"),
                         box + pc + pc2 + [T.bor(T.fcmp("flt", 1e-9, d), T.fcmp("flt", d, -1e-9))], timeout=120 if tier == "quick" else 900, meta=dict(n=n, fn="LineShape::from_radial + area"), witness=box))
     # discs
     f_ma = E.find_fn(ex, r"^molecular_shape2::<impl at [^>]*>::area$")
@@ -1572,7 +1577,223 @@ def c02(res, tier, seed):
     res.assumptions = ["R-mode; acos/sqrt as in the lens formula of MathWorld (the formula itself is trusted, calculus over acos is not decided)", "'score <= 1' is a corollary of this property and C01, not a separate obligation",
                        "float sin/cos constants of the polygon vertices are the real libm values (Python's math = the C library)"]
 
-PROPS = {"C12": c12, "C13": c13, "C14": c14, "C15": c15, "C16": c16, "C04": c04, "C10": c10, "C03": c03, "C02": c02}
+# ------------------------------------------------------------------------------ C08
+
+def basis_info(ex, st_holder, b):
+    """(path of the SharedValue the handle points at, old, min, max) of a StandardBasis value"""
+    ref = b.fields[0]
+    return ref.path, b.fields[1], b.fields[2], b.fields[3]
+
+
+def c08(res, tier, seed):
+    import math
+    ex = E.load()
+    qs = []
+    f_dof = E.find_fn(ex, r"^cell::.*::get_degrees_of_freedom$")
+    f_gb = E.find_fn(ex, r"^site::.*::get_basis$")
+    a, q, t = F("a"), F("q"), F("t")
+    expect = {"Monoclinic": {0: (0.01, a), 1: (0.1, q), 2: (math.pi / 6, math.pi / 2)}, "Orthorhombic": {0: (0.01, a), 1: (0.1, q)},
+              "Hexagonal": {0: (0.01, a)}, "Tetragonal": {0: (0.01, a)}}
+    for fam, exp in expect.items():
+        cell = S.cell(a, q, t, fam)
+        dof, pc, _ = E.run(ex, f_dof, [E.ByRef(cell)])
+        got = {}
+        for b in dof.fields:
+            path, old, lo, hi = basis_info(ex, None, b)
+            got[path[0]] = (lo, hi, old)
+        qs.append(Query("[%s] free cell parameters are exactly %s (length=0, ratio=1, angle=2)" % (fam, sorted(exp)), [sorted(got) != sorted(exp)], meta=dict(family=fam, found=sorted(got), fn="Cell2::get_degrees_of_freedom"), nontrivial=False))
+        for k in exp:
+            if k not in got:
+                continue
+            lo, hi, old = got[k]
+            elo, ehi = exp[k]
+            cur = [a, q, t][k]
+            qs.append(Query("[%s] parameter %d: range is [%s, %s] and the handle remembers the current value" % (fam, k, elo, "current value" if T.is_t(ehi) else ehi),
+                            pc + [neq_any([(lo, elo), (hi, ehi), (old, cur)])], meta=dict(family=fam, param=k, fn="Cell2::get_degrees_of_freedom")))
+    # site handles
+    data = S.real_data()
+    site = S.occupied_site(data["groups"]["p2"]["ops"], F("x"), F("y"), F("th"))
+    gb, pc, _ = E.run(ex, f_gb, [E.ByRef(site), 1])
+    got = {}
+    for b in gb.fields:
+        path, old, lo, hi = basis_info(ex, None, b)
+        got[path[0]] = (lo, hi, old)
+    qs.append(Query("site handles: x, y, orientation (fields 1,2,3)", [sorted(got) != [1, 2, 3]], meta=dict(found=sorted(got), fn="OccupiedSite::get_basis"), nontrivial=False))
+    for k, (elo, ehi) in {1: (-0.5, 0.5), 2: (-0.5, 0.5), 3: (0.0, 2 * math.pi)}.items():
+        if k in got:
+            lo, hi, old = got[k]
+            qs.append(Query("site parameter %d: range [%g, %g]" % (k, elo, ehi), pc + [neq_any([(lo, elo), (hi, ehi)])], meta=dict(param=k, fn="OccupiedSite::get_basis")))
+    # generate_basis of both state kinds = cell handles followed by the site handles
+    opaque = Agg("struct:OpaqueShape", [])
+    exo = E.load(generics={"S": "opaque::Shape"})
+    for kind, mod in (("packed", "packed"), ("potential", "potential")):
+        f_g = E.find_fn(exo, r"^%s::<impl at [^>]*>::generate_basis$" % mod)
+        for fam, nexp in (("Monoclinic", 3), ("Orthorhombic", 2), ("Hexagonal", 1)):
+            st = S.state(kind, "p2", opaque, a, q, t, F("x"), F("y"), F("th"), family=fam)
+            gbv, pc, _ = E.run(exo, f_g, [E.ByRef(st)])
+            paths = [b.fields[0].path for b in gbv.fields]
+            ok = len(paths) == nexp + 3 and all(p[0] == 2 for p in paths[:nexp]) and all(p[0] == 3 for p in paths[nexp:])
+            qs.append(Query("[%s/%s] generate_basis = %d cell handles + 3 site handles, pointing into this state" % (kind, fam, nexp), [not ok], meta=dict(paths=[str(p) for p in paths], fn="%s::generate_basis" % kind), nontrivial=False))
+    # one-step induction on a handle: whatever value is proposed, the stored value stays in [min,max]; reset restores
+    f_sv = [f for f in ex.fns if f.name.startswith("basis::") and f.name.endswith("::set_value") and "StandardBasis" in f.args[0][1]][0]
+    f_rv = [f for f in ex.fns if f.name.startswith("basis::") and f.name.endswith("::reset_value")][0]
+    f_ss = [f for f in ex.fns if f.name.startswith("basis::") and f.name.endswith("::set_sampled")][0]
+    from mirexec import State, Frame
+    val, lo, hi, old, newv = F("val"), F("lo"), F("hi"), F("old"), F("newv")
+    st0 = State()
+    root = Frame(f_sv, {})
+    st0.frames.append(root)
+    root.locals[1] = E.shared(val)
+    root.locals[2] = Agg("struct:StandardBasis", [Ref(0, 1, ()), old, lo, hi])
+    st1, _ = ex.call_fn(st0, f_sv, [Ref(0, 2, ()), newv], {})
+    stored = st1.frames[0].locals[1].fields[0].fields[0]
+    old_after = st1.frames[0].locals[2].fields[1]
+    h = [T.fcmp("fle", lo, hi), T.fcmp("fle", lo, val), T.fcmp("fle", val, hi)]
+    qs.append(Query("handle: set_value(any real) stores a value inside [min,max]", h + st1.pc + [T.bor(T.fcmp("flt", stored, lo), T.fcmp("flt", hi, stored))], meta=dict(fn="StandardBasis::set_value"), witness=h))
+    qs.append(Query("handle: set_value stores the proposal unchanged when it is inside the range", h + st1.pc + [T.fcmp("fle", lo, newv), T.fcmp("fle", newv, hi), T.bnot(T.fcmp("feq", stored, newv))], meta=dict(fn="StandardBasis::set_value")))
+    qs.append(Query("handle: set_value remembers the value held before the proposal", h + st1.pc + [T.bnot(T.fcmp("feq", old_after, val))], meta=dict(fn="StandardBasis::set_value")))
+    st2, _ = ex.call_fn(st1, f_rv, [Ref(0, 2, ())], {})
+    restored = st2.frames[0].locals[1].fields[0].fields[0]
+    qs.append(Query("handle: set_value then reset_value restores the previous value exactly", h + st2.pc + [T.bnot(T.fcmp("feq", restored, val))], meta=dict(fn="StandardBasis::reset_value")))
+    # cell non-degeneracy inside the bounds
+    c_, s_ = T.uf("cos", [t]), T.uf("sin", [t])
+    f_area = E.find_fn(ex, r"^cell::.*::area$")
+    ar, pc, _ = E.run(ex, f_area, [E.ByRef(S.cell(a, q, t, "Monoclinic"))])
+    bnd = [T.fcmp("fle", 0.01, a), T.fcmp("fle", 0.1, q), T.fcmp("fle", 0.5, s_)]
+    qs.append(Query("inside the bounds (a >= 0.01, ratio >= 0.1, sin(angle) >= 1/2) the cell area is at least 5e-6: the cell never degenerates", bnd + pc + [T.fcmp("flt", ar, 5e-6)], meta=dict(fn="Cell2::area"), witness=bnd))
+    # initial states: every group with a disc of any radius, with polygons, with the default trimer
+    qs += initial_state_queries(ex, data, tier)
+    done = run_queries(qs + clone_queries(ex))
+    for qq in done:
+        record(res, qq, lambda q_: replay_clone(q_) or replay_generic_fact(q_))
+    # optimiser half: proposals stay inside [min,max] along every history
+    import oprops
+    oprops.run_mir(res, "C08", tier, seed)
+    res.functions += used_fns(ex) + used_fns(exo)
+    res.stubs = summaries_used()
+    res.bounds += ["all four crystal families, both state kinds; handle induction for all reals with min <= max; initial states: 7 groups x {disc of symbolic radius, polygon 3/4/6, default trimer}"]
+    res.assumptions += ["chaining: every stage re-derives [min, current value] from the current value, so ranges only shrink (follows from the handle obligations)", "NaN proposals (non-finite inputs) are outside the property"]
+
+
+def replay_generic_fact(q):
+    if q.status == "sat" and not q.model:
+        return ("violated", "%s: %s" % (q.name, q.meta), dict(kind="fact", fact=q.name, meta=q.meta), dict(clause="structure", what=q.name.split(":")[0][:60]))
+    return None
+
+
+def initial_state_queries(ex, data, tier):
+    """from_wyckoff + Cell2::from_family(4 R N) give a state whose score is defined"""
+    qs = []
+    groups = data["groups"]
+    f_fw = E.find_fn(ex, r"^site::.*::from_wyckoff$")
+    f_ff = E.find_fn(ex, r"^cell::.*::from_family$")
+    rr = F("rad")
+    shapes = [("disc of radius r>0", "molecular_shape2::MolecularShape2", Agg("struct:MolecularShape2", [Agg("str", ["c"]), Agg("vec", [Agg("struct:Atom2", [S.point(0.0, 0.0), rr])])]), rr, [T.fcmp("flt", 0.0, rr), T.fcmp("fle", rr, 100.0)]),
+              ("square", "line_shape::LineShape", S.shape_value(data["shapes"]["polygon4"]), 1.0, []),
+              ("triangle", "line_shape::LineShape", S.shape_value(data["shapes"]["polygon3"]), 1.0, []),
+              ("default trimer", "molecular_shape2::MolecularShape2", S.shape_value(data["shapes"]["trimer:0.637556,120,1"]), unjf(data["shapes"]["trimer:0.637556,120,1"]["enclosing_radius"]), [])]
+    if tier == "thorough":
+        shapes.append(("hexagon", "line_shape::LineShape", S.shape_value(data["shapes"]["polygon6"]), 1.0, []))
+    for sname, sty, shape, R, hyp in shapes:
+        exs = E.load(generics={"S": sty})
+        f_sc = E.find_fn(exs, r"^packed::<impl at [^>]*>::score$")
+        for g in (list(groups) if tier == "thorough" or sname.startswith("disc") else ["p1", "p2", "p2mg", "p2gg"]):
+            ops = groups[g]["ops"]
+            N = len(ops)
+            wy = S.wyckoff(ops)
+            site, pc0, _ = E.run(ex, f_fw, [E.ByRef(wy)])
+            size = T.fbin("fmul", T.fbin("fmul", 4.0, R), float(N))
+            cell, pc1, _ = E.run(ex, f_ff, [mk_enum("CrystalFamily", groups[g]["family"], []), size])
+            wall = Agg("struct:Wallpaper", [Agg("str", [g]), mk_enum("CrystalFamily", groups[g]["family"], [])])
+            st = Agg("struct:PackedState", [wall, shape, cell, Agg("vec", [site])])
+            sc, pc, _ = E.run(exs, f_sc, [E.ByRef(st)])
+            none = T.bor(*[c for c, vn, f in sc.alts if vn == "None"])
+            qs.append(Query("[%s x %s] the initial state (from_wyckoff + from_family(4 R N)) has a defined score" % (g, sname), hyp + pc0 + pc1 + pc + [none], timeout=120,
+                            meta=dict(group=g, shape=sname, fn="OccupiedSite::from_wyckoff + Cell2::from_family + PackedState::score"), witness=hyp if hyp else None))
+    return qs
+
+
+# ------------------------------------------------------------------------------ C09
+
+def c09(res, tier, seed):
+    ex = E.load()
+    qs = clone_queries(ex)
+    # build(): the generator seed is the configured one whenever a seed is configured
+    f_build = E.find_fn(ex, r"^optimisation::<impl at [^>]*>::build$")
+    seedv = T.var("seed", "I")
+    opt_none = mk_enum("Option", "None", [])
+    bo = Agg("struct:BuildOptimiser", [T.var("steps", "I"), F("kt0"), opt_none, mk_enum("Option", "Some", [F("ratio")]), F("maxstep"), T.var("inner", "I"), mk_enum("Option", "Some", [seedv]), opt_none])
+    try:
+        rv, pc, _ = E.run(ex, f_build, [E.ByRef(bo)])
+        qs.append(Query("BuildOptimiser::build uses the configured seed (no entropy) when a seed is set", pc + [T.bnot(T.icmp("ieq", rv.fields[5], seedv))], meta=dict(fn="BuildOptimiser::build")))
+    except Unsupported as e:
+        q = Query("BuildOptimiser::build uses the configured seed", [True], meta=dict(unsupported=str(e)[:200]))
+        qs.append(q)
+    # the setters used by the CLI pipeline do what their names say (seed(index) stores index, ...)
+    for nm, idx, val in (("seed", 6, T.var("newseed", "I")), ("steps", 0, T.var("newsteps", "I")), ("kt_start", 1, F("newkt"))):
+        f_set = [f for f in ex.fns if f.name.startswith("optimisation::<impl at src/optimisation.rs:69") and f.name.endswith("::" + nm)]
+        if not f_set:
+            f_set = [f for f in ex.fns if f.name.startswith("optimisation::") and f.name.endswith("::" + nm) and len(f.args) == 2]
+        from mirexec import State, Frame
+        st0 = State()
+        root = Frame(f_set[0], {})
+        st0.frames.append(root)
+        root.locals[1] = bo
+        st1, _ = ex.call_fn(st0, f_set[0], [Ref(0, 1, ()), val], {})
+        after = st1.frames[0].locals[1]
+        if nm == "seed":
+            ok = isinstance(after.fields[idx], Enum) and after.fields[idx].concrete() and after.fields[idx].alts[0][1] == "Some" and after.fields[idx].alts[0][2][0] is val
+        else:
+            ok = after.fields[idx] is val
+        others_same = all(after.fields[k] == bo.fields[k] or after.fields[k] is bo.fields[k] for k in range(8) if k != idx)
+        qs.append(Query("BuildOptimiser::%s stores its argument and nothing else" % nm, [not (ok and others_same)], meta=dict(fn="BuildOptimiser::" + nm), nontrivial=False))
+    qs += pipeline_facts()
+    done = run_queries(qs)
+    for qq in done:
+        record(res, qq, lambda q_: replay_clone(q_) or replay_generic_fact(q_))
+    import kprops_misc
+    kprops_misc.run_c09(res, tier)
+    res.functions = used_fns(ex)
+    res.stubs = summaries_used()
+    res.bounds = ["sequential core only: deep-copy Clone, seed dataflow, determinism of the optimiser given (state, settings, seed); 1 thread"]
+    res.assumptions = ["NOT explored: thread counts, rayon work-stealing schedules, interleavings of replicas, process restarts. A data race introduced without changing the sequential facts would not be seen.",
+                       "determinism given the seed follows from: the only randomness in optimise_state is the generator seeded from the configured seed (the MIR engine models every draw as coming from it) and no global state is touched"]
+
+
+def pipeline_facts():
+    """MIR dataflow facts about main.rs::analyse_state (no solver involved; listed as such)"""
+    import subprocess, re
+    qs = []
+    env = dict(os.environ, CARGO_TARGET_DIR=os.path.join(E.TARGET, "mirbin"), CARGO_NET_OFFLINE="true")
+    fp = os.path.join(E.TARGET, "mirbin", "debug", ".fingerprint")
+    if os.path.isdir(fp):
+        for d in os.listdir(fp):
+            if d.startswith("packing-"):
+                subprocess.run(["rm", "-rf", os.path.join(fp, d)])
+    p = subprocess.run(["cargo", "+nightly", "rustc", "--offline", "--manifest-path", os.path.join(E.REPO, "Cargo.toml"), "--bin", "packing", "--", "-Zunpretty=mir"],
+                       env=env, stdout=subprocess.PIPE, stderr=subprocess.PIPE, text=True)
+    txt = p.stdout
+    if len(txt) < 1000:
+        q = Query("main.rs MIR available", [True], meta=dict(err=p.stderr[-300:]))
+        return [q]
+    clos = re.findall(r"fn analyse_state::\{closure#(\d+)\}\(.*?\n\}\n", txt, re.S)
+    bodies = {int(m.group(1)): m.group(0) for m in re.finditer(r"fn analyse_state::\{closure#(\d+)\}\(.*?\n\}\n", txt, re.S)}
+    for k in (0, 1, 2):
+        b = bodies.get(k, "")
+        seed_calls = re.findall(r"BuildOptimiser::seed\(([^)]*)\)", b)
+        builds = len(re.findall(r"BuildOptimiser::build\(", b))
+        # the index argument of the closure: _2 (plain) or a field of the tuple argument
+        uses_index = any(re.search(r"copy _\d+|move _\d+", c) for c in seed_calls)
+        order_ok = b.find("BuildOptimiser::seed(") != -1 and b.find("BuildOptimiser::seed(") < b.find("BuildOptimiser::build(")
+        qs.append(Query("analyse_state stage %d: the optimiser is seeded (seed(..) precedes the single build()) " % (k + 1), [not (len(seed_calls) == 1 and builds == 1 and order_ok and uses_index)],
+                        meta=dict(fn="main.rs analyse_state::{closure#%d} (MIR dataflow fact, no solver)" % k, seed_calls=seed_calls), nontrivial=False))
+    main_b = re.search(r"fn analyse_state\(.*?\n\}\n", txt, re.S)
+    mb = main_b.group(0) if main_b else ""
+    qs.append(Query("analyse_state reduces the replicas with max()", [not ("::max(" in mb and "::min(" not in mb)], meta=dict(fn="main.rs analyse_state (MIR dataflow fact, no solver)"), nontrivial=False))
+    return qs
+
+
+PROPS = {"C12": c12, "C13": c13, "C14": c14, "C15": c15, "C16": c16, "C04": c04, "C10": c10, "C03": c03, "C02": c02, "C08": c08, "C09": c09}
 
 
 
